@@ -1643,8 +1643,12 @@ int ov_pcm_seek_page(OggVorbis_File *vf,ogg_int64_t pos){
         ogg_stream_reset_serialno(&vf->os,vf->current_serialno);
         ogg_stream_pagein(&vf->os,&og);
 
-      }else
+      }else{
+        /* 'result' may still hold a page offset from the bisection; it
+           must not be returned as if it were a status code */
+        result=OV_EBADLINK;
         goto seek_error;
+      }
 
     }else{
 
